@@ -610,8 +610,14 @@ func mkTuple(r *prng.R, idx int) *tuple {
 
 // mkTupleAt builds a consistent tuple at the given height whose header carries
 // the given AppHash and LastResultsHash (those of the previous height).
+// forceNtx > 0 fixes the number of transactions of the tuples built next.
+var forceNtx int
+
 func mkTupleAt(r *prng.R, name string, height int64, appHash, lastResultsHash []byte, link *chainLink) *tuple {
 	ntx := []int{1, 2, 3, 5, 8}[r.Intn(5)]
+	if forceNtx > 0 {
+		ntx = forceNtx
+	}
 	var root hash.Hash
 	copy(root[:], r.Bytes(32))
 	var sigTxs []*transaction.SignedTransaction
